@@ -1,6 +1,6 @@
 ---------------------------- MODULE Visibility_Trace ----------------------------
 (* Judge of visibility observations (C13).  Event:
-     {tid, i, cfg: {arch, nodes:[{akw,alic,mask:{neg,pos},unmask:{neg,pos},pakw:[{sc,toks}]}],
+     {tid, i, cfg: {arch, nodes:[{parents,akw,alic,mask:{neg,pos},unmask:{neg,pos},pakw:[{sc,toks}]}],
                     conf:{akw,alic}, user:{mask,unmask,pakw,plic}, repo:{masks, defs:[{name,members:[{ref,name}]}]},
                     pkgs:[{id, kws:[..], lic: tree}]},
       obs: [{pkg, mask, kw, lic, visible}]}
@@ -14,7 +14,7 @@ DefsOf(arr) == [g \in {arr[k].name : k \in DOMAIN arr} |->
                   AsSet(arr[CHOOSE k \in DOMAIN arr : arr[k].name = g].members)]
 CfgOf(c) ==
     [arch |-> c.arch,
-     nodes |-> [k \in DOMAIN c.nodes |-> [akw |-> c.nodes[k].akw, alic |-> c.nodes[k].alic, mask |-> NP(c.nodes[k].mask),
+     nodes |-> [k \in DOMAIN c.nodes |-> [parents |-> c.nodes[k].parents, akw |-> c.nodes[k].akw, alic |-> c.nodes[k].alic, mask |-> NP(c.nodes[k].mask),
                                          unmask |-> NP(c.nodes[k].unmask), pakw |-> c.nodes[k].pakw]],
      conf |-> c.conf,
      user |-> [mask |-> AsSet(c.user.mask), unmask |-> AsSet(c.user.unmask), pakw |-> c.user.pakw, plic |-> c.user.plic],
